@@ -247,7 +247,9 @@ def R4_floors(run):
                   loc=fn.loc(), detail="checked_mul_div (floor)")
     fn = facts.need_fn("manager::swap_manager::calculate_fees")
     ok = not any((callee_path(t) or "").endswith(("div_ceil", "div_round_up", "checked_mul_div_round_up")) for _, t in fn.calls())
-    divs = [st for bb in fn.blocks for st in bb["s"] if st["k"] == "=" and st["rv"].get("bin") == "Div"]
+    # (the protocol cut's own `/ 10_000` is part of this function's inlined view; C06.R2 decides it)
+    divs = [st for bb in fn.blocks for st in bb["s"] if st["k"] == "=" and st["rv"].get("bin") == "Div" and not bb.get("dead")
+            and (st["rv"]["b"].get("k") or {}).get("v") != "10000"]
     run.check("R4", "lp-growth-floor", ok and len(divs) == 1, "calculate_fees must use one truncating division for the LP growth", loc=fn.loc(), detail="truncating Div")
     # fee growth is booked once: the running growth of the input token is what a crossed tick flips against (C07.R2, C07.R6) and
     # what positions are credited from (C07.R5) - a stale or wrong-side growth credits fees nobody paid
